@@ -25,6 +25,15 @@ var specLabels = map[string][2]string{ // role -> {salt, info}
 	"session-controller-to-accessory": {"Control-Salt", "Control-Write-Encryption-Key"},
 }
 
+// items of the accessory's responses that carry no error: setup M2 = salt + public key, M4 = proof, M6 = encrypted data;
+// verify M2 = public key + encrypted data (State is checked separately)
+var specResponseItems = map[string][]int64{
+	tSetupCtrl + "/2":  {3, 2},
+	tSetupCtrl + "/4":  {4},
+	tSetupCtrl + "/6":  {5},
+	tVerifyCtrl + "/2": {3, 5},
+}
+
 var specNonces = map[string]string{
 	"setup-open-M5":  "PS-Msg05",
 	"setup-seal-M6":  "PS-Msg06",
@@ -628,7 +637,18 @@ func c04r4(c *core.Ctx) {
 			cnt := 0
 			var vals []string
 			errCodes := []int64{}
+			hasErrItem := false
+			tagsSet := map[int64]bool{}
 			stepOnPath(pa, h.typ, "step", func(i ssa.Instruction, known bool, val int64, set bool) {
+				if core.IsInvoke(i, qContainer, "SetBytes") || core.IsInvoke(i, qContainer, "SetString") {
+					cc := core.CallOf(i)
+					if sameValue(cc.Value, res(ret)[0]) || cc.Value == res(ret)[0] {
+						if tag, isK := core.ConstInt(cc.Args[0]); isK {
+							tagsSet[tag] = true
+						}
+					}
+					return
+				}
 				if !core.IsInvoke(i, qContainer, "SetByte") {
 					return
 				}
@@ -659,6 +679,7 @@ func c04r4(c *core.Ctx) {
 						vals = append(vals, "?")
 					}
 				case 7:
+					hasErrItem = true
 					if vk {
 						errCodes = append(errCodes, v)
 					}
@@ -668,6 +689,17 @@ func c04r4(c *core.Ctx) {
 			for _, e := range errCodes {
 				if e < 1 || e > 7 {
 					good = false
+				}
+			}
+			// a response without error code carries the items of that message (R2 5.6.2/5.6.4/5.6.6, 5.7.2/5.7.4)
+			if want, has := specResponseItems[h.typ+"/"+fmt.Sprint(h.state)]; has && len(errCodes) == 0 && !hasErrItem {
+				for _, t := range want {
+					if !tagsSet[t] {
+						good = false
+						if w == nil {
+							why = fmt.Sprintf("the response M%d carries no item with tag %d", h.state, t)
+						}
+					}
 				}
 			}
 			if !good {
